@@ -71,7 +71,7 @@ def endsOpenRef (b : List Char) : Bool :=
 /-- elements next to which html.go removes or keeps whitespace differently from what their default rendering
     allows (table entries, see docs/C03.md): **K-C03-9** (`wsclass`) -/
 def wsMisclassified : List String :=
-  ["noscript", "style", "marquee", "noembed", "noframes", "embed", "audio", "template", "q", "xmp", "listing",
+  ["noscript", "style", "noembed", "noframes", "embed", "audio", "template", "q", "xmp", "listing",
    "plaintext", "rt", "rp", "rb", "rtc", "datalist"]
 
 /-- attribute rewrites whose meaning is not preserved: **K-C03-10** (`attrsem`) -/
